@@ -10,6 +10,8 @@ partial def readAll (h : IO.FS.Stream) (acc : Array String) : IO (Array String) 
 def dispatch (name : String) (lines : List String) : Option (List String) :=
   match name with
   | "funccompile" => some (Sympler.FuncCompile.driver lines)
+  | "smartlist" => some (Sympler.SmartList.driver lines)
+  | "verlet" => some (Sympler.Verlet.driver lines)
   | "stages" => some (Sympler.Stages.driver lines)
   | _ => none
 
